@@ -351,6 +351,15 @@ def judge(prop, case, acc):
         # a well-formed, schedulable case that raised RuntimeError: legitimate diagnosis only for C14; other
         # properties quantify over produced schedules
         acc.count('wellformed_case_raised:' + outcome)
+        if prop == 'C06' and outcome == 'RuntimeError' and case['dir'] == 'fwd' and 'end date in future' in str(exc):
+            # the diagnosis names a condition that can be checked: no task of the plan ends after the clock of this run, so the plan
+            # is schedulable and C06 demands a schedule (a refusal that depends on anything but WBS, resources, start and clock)
+            now_ = vf.env.plain(Clock._now)
+            if not any(t['end'] is not None and t['end'] > now_ for t in case['tasks']):
+                acc.count('end_in_future_diagnoses_checked')
+                viol('C06', 'schedulable-plan-refused/end-in-future-diagnosis-without-such-end', f'calc refused the plan ({str(exc)[:80]}) although no task ends after the clock {now_}')
+            else:
+                acc.count('end_in_future_diagnoses_checked')
         _report(prop, V, case, acc)
         return
     if unsched:
@@ -364,8 +373,8 @@ def judge(prop, case, acc):
     acc.count('schedules_ok')
     if case.get('task_caps'):
         acc.count('schedules_with_task_dependent_capacity')
-    if case['dir'] == 'fwd' and Clock.calls == clock0 and any(t['start'] is None and not t['milestone'] for t in case['tasks'] if True):
-        acc.inconclusive.append('forward calc with unfixed tasks produced zero clock reads: the clock hook does not control the code')
+    if case['dir'] == 'fwd' and Clock.calls == 0 and any(t['start'] is None and not t['milestone'] for t in case['tasks'] if True):
+        acc.inconclusive.append('forward calc with unfixed tasks ran although the process never read the clock: the clock hook does not control the code')
 
     s = res.schedule
     raw_rows = res.resource_usage.rows()
